@@ -528,10 +528,26 @@ def proof_phase(ctx, mod):
     okd, ok, failed, log = _build(ctx, targets)
     if not (okd and ok):
         what = ("model driver does not build: %s" if not okd else "lake build failed (a theorem no longer checks): %s") % ", ".join(failed or targets)
-        # first the tables this property regenerates itself; only if that is not enough, every table
-        restored = restore_reference(list(gens)) if gens else []
-        if restored:
-            okd2, ok2, failed2, log2 = _build(ctx, targets)
+        # first the generated modules the failure itself points at (a module named in the log, and the translated function
+        # BODIES whenever one of the modules built on them fails: generated code is the most fragile table); then the tables
+        # this property regenerates itself; only if that is not enough, every table.  Restoring as little as possible matters:
+        # a reference table that is put back although it could have been regenerated makes the model speak about the OLD code.
+        restored, okd2, ok2 = [], False, False
+        named = [g for g in dict.fromkeys(re.findall(r"KaVerif[./]Gen[./]([A-Za-z]+?)(?:\d*|Table\d*|Reach\w*)\b", log or "")) if g]
+        if any(("Bodies" in m or "EvalG" in m) for m in (failed or [])) or "Bodies" in (log or ""):
+            named = ["Bodies"] + [g for g in named if g != "Bodies"]
+        for g in named:
+            got = restore_reference([g])
+            if got:
+                restored += got
+                okd2, ok2, failed2, log2 = _build(ctx, targets)
+                if okd2 and ok2:
+                    break
+        if not (okd2 and ok2):
+            more = restore_reference(list(gens)) if gens else []
+            if more:
+                restored += more
+                okd2, ok2, failed2, log2 = _build(ctx, targets)
         if not restored or not (okd2 and ok2):
             more = restore_reference(None)
             if more:
